@@ -180,6 +180,8 @@ class TreeOracle:
                     I.d[i][1] = v
             else:
                 I.d[i] = [k, v]
+            if self.walk:
+                self.unfinished = True
             self.walk = None
             if "map" in a and f[0] != "true":
                 err = "put reported failure"
@@ -187,10 +189,14 @@ class TreeOracle:
             i = ident(I.mode, unhex(w[1]))
             present = i in I.d
             I.d.pop(i, None)
+            if self.walk:
+                self.unfinished = True
             self.walk = None
             if "map" in a and (f[0] == "true") != present:
                 err = "remove returned %s for a key that was %s" % (f[0], "present" if present else "absent")
         elif kind == "clear":
+            if self.walk:
+                self.unfinished = True
             I.d.clear(); self.walk = None
         elif kind == "get":
             i = ident(I.mode, unhex(w[1]))
@@ -231,7 +237,9 @@ class TreeOracle:
             self.walk = ("near", list(I.sorted_items())) if want else None
         elif kind == "next":
             if self.walk is None:
-                pass            # continuation after a mutation: outside the properties
+                # a cursor used after a modification (outside the properties): whatever it did, a walk
+                # may now be left unfinished in the current epoch - unless it just reported the end
+                self.unfinished = (f[0] != "done")
             else:
                 mode, remaining = self.walk
                 if f[0] == "item":
@@ -382,6 +390,10 @@ class TreeCheck(Check):
                 out += ["next"] * rng.randrange(0, 6)
             elif o == "fullnext":
                 out.append("cursor0")
+                out += ["next"] * (min(nkeys, 40) + 2)
+            elif o == "nearnext":
+                # a search (mostly for a stored key) continued with getnext until the end
+                out.append("near %s" % hexs(k))
                 out += ["next"] * (min(nkeys, 40) + 2)
             else:
                 out.append(o)
